@@ -6,7 +6,7 @@
    theorems hold whatever the builtins compute. `runs op st s r` = for some (hence every larger) fuel,
    statement st started in store s ends with result r. *)
 From Coq Require Import ZArith List Bool.
-From NV Require Import Common.Outcome Lang.Contain Lang.Contain_proofs.
+From NV Require Import Common.Outcome Lang.Contain Lang.Contain_proofs Lang.HugeCount Lang.HugeCount_proofs.
 From NV Require Import Common.MachineInt Seq.Index Seq.IndexSpec Seq.Index_proofs Props.C10.
 Import ListNotations.
 
@@ -110,6 +110,32 @@ Print Assumptions C14_program_no_panic.
 Theorem C14_std_program_no_panic : forall f st s, exec_std f st s <> RPanic.
 Proof. exact (program_no_panic std_op std_op_no_panic). Qed.
 Print Assumptions C14_std_program_no_panic.
+
+(* The known finding `huge-count-argument`, on the model of `x .* n` (vec![x; n], sz = size_of::<Obj>(), avail = what
+   the allocator can give): outside the class (n < 2^31) and with room for 2^31 elements it never panics ... *)
+Theorem C14_replicate_no_panic_unless_known : forall (A : Type) (sz avail : Z) (x : A) (n : Z),
+  (0 < sz)%Z -> (2 ^ 31 * sz <= avail)%Z -> (avail <= isize_max)%Z -> ~ Known n ->
+  dot_star sz avail x n <> Panic.
+Proof. exact @dot_star_no_panic_unless_known. Qed.
+Print Assumptions C14_replicate_no_panic_unless_known.
+
+(* ... a count of the bounded stratum gives the list of that length ... *)
+Theorem C14_replicate_bounded_ok : forall (A : Type) (sz avail : Z) (x : A) (n : Z),
+  (0 < sz)%Z -> (2 ^ 16 * sz <= avail)%Z -> (avail <= isize_max)%Z -> (n <= 2 ^ 16)%Z ->
+  exists l, dot_star sz avail x n = Ok l /\ Z.of_nat (length l) = Z.max 0 n.
+Proof. exact @dot_star_bounded_ok. Qed.
+Print Assumptions C14_replicate_bounded_ok.
+
+(* ... and the unrestricted statement is false: [x] .* (2^63-1) panics whatever memory there is *)
+Theorem C14_replicate_refuted : forall (A : Type) (sz : Z) (x : A), (2 <= sz)%Z ->
+  exists n, Known n /\ forall avail, dot_star sz avail x n = Panic.
+Proof. exact @dot_star_refuted. Qed.
+Print Assumptions C14_replicate_refuted.
+
+Theorem C14_replicate_refuted_by_allocation : forall (A : Type) (sz avail : Z) (x : A),
+  (0 < sz)%Z -> (avail < 2 ^ 31 * sz)%Z -> dot_star sz avail x (2 ^ 31)%Z = Panic.
+Proof. exact @dot_star_refuted_by_allocation. Qed.
+Print Assumptions C14_replicate_refuted_by_allocation.
 
 (* panic-freedom of modelled cores, proved in the other properties' developments, re-exported *)
 Theorem C14_index_no_panic : forall (A : Type) (xs : list A) (i : idx),
